@@ -70,7 +70,25 @@ def p_keys(s):
 
 
 def norm_key(p):
+    """python twin of crate::output::path::path_key for relative paths (fix D08): one leading ./ or .\\
+    stripped, '.' and '' -> '.', backslash -> slash"""
+    if p.startswith("./") or p.startswith(".\\"):
+        p = p[2:]
+    if p in ("", "."):
+        return "."
     return p.replace("\\", "/")
+
+
+def view(b):
+    """a baseline as a run sees it: Baseline::load re-keys every entry through path_key"""
+    if b is None:
+        return None
+    return {norm_key(k): e for k, e in b.items()}
+
+
+def stable_path(p):
+    """inside the modelled domain: path_key is a fixed point after one application"""
+    return norm_key(norm_key(p)) == norm_key(p)
 
 
 def w_flags(fl):
@@ -157,8 +175,9 @@ class HashDir:
 
 # ------------------------------------------------------------------ library-level generators
 
-PATH_POOL = ["a.rs", "./a.rs", "src/b.rs", "src\\b.rs", "d", "./d", ".", "d/e.rs", "h1.rs", "./h1.rs", "sub/h2.rs",
-             "sub\\h2.rs", "", "été.rs", "a.rs/", "x y.rs", "d\\e.rs", "\U0001f600.rs", "nope/none.rs"]
+PATH_POOL = ["a.rs", "./a.rs", ".\\a.rs", "src/b.rs", "src\\b.rs", "./src/b.rs", ".\\src\\b.rs", "d", "./d", ".", "./", "./.", "d/e.rs", "h1.rs",
+             "./h1.rs", "sub/h2.rs", "./sub/h2.rs", "sub\\h2.rs", "", "été.rs", "a.rs/", "x y.rs", "d\\e.rs", "\U0001f600.rs", "nope/none.rs", "..", "../x.rs", ".a.rs"]
+assert all(stable_path(p) for p in PATH_POOL)
 KINDS = ["n"] * 6 + ["c"] * 3 + ["nS"] + ["sF"] * 4 + ["sD"] * 3 + ["sM"] * 2 + ["sP0", "sP1", "sP2", "sP3", "sP4", "sP5", "sP6"]
 STATUSES = ["F"] * 9 + ["G"] * 3 + ["W"] * 3 + ["P"] * 5
 
@@ -183,12 +202,18 @@ def rand_entry(rng):
 
 
 def rand_baseline(rng, results=None):
-    b = {}
-    keys = [norm_key(p) for p in PATH_POOL] + ["src\\b.rs"]
+    """keys under any spelling (the harness builds the baseline with set_*, which normalise; the model
+    re-keys); never two spellings of one key in one baseline (merge order is the HashMap's)"""
+    b, used = {}, set()
+    keys = list(PATH_POOL)
     if results and rng.random() < 0.7:
-        keys = [norm_key(r["path"]) for r in results] * 3 + keys
+        keys = [r["path"] for r in results] * 3 + [norm_key(r["path"]) for r in results] + keys
     for _ in range(rng.choice([0, 1, 2, 3, 4, 6])):
-        b[rng.choice(keys)] = rand_entry(rng)
+        k = rng.choice(keys)
+        if norm_key(k) in used:
+            continue
+        used.add(norm_key(k))
+        b[k] = rand_entry(rng)
     return b
 
 
@@ -210,7 +235,7 @@ def lib_cases(ctx, hd, n):
             out.append({"cmd": "ratchet", "line": "ratchet\t%s\t%s" % (w_results(rs), w_bl(b)), "rs": rs, "bl": b})
         elif r < 0.65:
             b = rand_baseline(rng, rs)
-            ks = [rng.choice(list(b) + [norm_key(p) for p in PATH_POOL]) for _ in range(rng.randint(0, 4))]
+            ks = [norm_key(rng.choice(list(b) + PATH_POOL)) for _ in range(rng.randint(0, 4))]
             out.append({"cmd": "tighten", "line": "tighten\t%s\t%s" % (w_bl(b), w_keys(ks)), "bl": b, "ks": ks})
         else:
             m = rng.choice("acsn")
@@ -474,7 +499,7 @@ class Project:
             dirs = []
         else:
             rsel = list(pr["R"])
-            dirs = present_dirs(self.state)
+            dirs = [norm_key(d) for d in present_dirs(self.state)]
         return {"state": self.state, "depth0": self.depth0, "flags": dict(fl), "files": files, "threads": threads,
                 "disk0": disk0, "disk1": disk1, "exit": rc, "obs": obs, "rp": [pre(r) for r in obs], "rsel": rsel, "dirs": dirs,
                 "rfull": pr["R"], "parsed": parsed, "stderr": err[-1500:], "stdout_raw": out, "probe_ok": pr["agrees_with_evaluator"],
@@ -535,6 +560,12 @@ def replay_history(exe, hist, depth0=False, auto_rerun=True):
             if op["op"] == "edit":
                 pj.edit(op["state"])
                 continue
+            if op["op"] == "respell":
+                # the baseline file as another spelling / an older version wrote it: keys behind ./
+                d = read_disk(pj.sb.proj)
+                if d is not None:
+                    write_disk(pj.sb.proj, {("./" + k if not k.startswith("./") else k[2:] or "."): e for k, e in d.items()})
+                continue
             if op["op"] == "update":
                 fl = {"b": op["we"], "u": op["mode"]}
                 rec = pj.run(fl)
@@ -568,7 +599,7 @@ CHECK_FLAGS_SMALL = [
     ({"b": True, "wae": True}, None),
     ({"b": True, "wo": True}, None),
     ({"b": True, "rc": "a"}, ["./b.rs"]),
-    ({"b": True, "rc": "s"}, ["./b.rs", "./a.rs"]),
+    ({"b": True, "rc": "s"}, ["b.rs", "./a.rs"]),
     ({"b": True, "ff": True}, ["./a.rs", "./b.rs"]),
     ({"b": True, "rg": "a", "ff_cfg": True}, None),
     ({}, None),
@@ -579,6 +610,7 @@ def op_alphabet():
     ops = [{"op": "edit", "state": s} for s in ("oo---", "ou---", "o-oo-", "ooooo", "uu-u-")]
     ops += [{"op": "update", "mode": m, "we": we} for m in "acsn" for we in (False, True)]
     ops += [{"op": "check", "flags": fl, "files": files} for fl, files in CHECK_FLAGS_SMALL]
+    ops.append({"op": "respell"})
     return ops
 
 
@@ -588,7 +620,7 @@ def exhaustive_histories(maxlen, start_states=("oo---", "o-oo-")):
     for s0 in start_states:
         for n in range(1, maxlen + 1):
             for seq in itertools.product(alpha, repeat=n):
-                if all(o["op"] == "edit" for o in seq):
+                if all(o["op"] in ("edit", "respell") for o in seq):
                     continue
                 yield [{"op": "edit", "state": s0}] + list(seq)
 
@@ -622,7 +654,8 @@ def rand_state(rng):
 def rand_files(rng, state):
     allf = UFILES + ["./ghost.rs"]
     k = rng.randint(1, 4)
-    return [rng.choice(allf) for _ in range(k)]
+    # either spelling of a listed file (fix D08: same baseline key)
+    return [f if rng.random() < 0.6 else f[2:] for f in (rng.choice(allf) for _ in range(k))]
 
 
 def rand_history(rng, maxlen=10):
@@ -635,8 +668,10 @@ def rand_history(rng, maxlen=10):
             prev = [o for o in h if o["op"] == "edit"][-1]["state"]
             i = rng.randrange(len(UFILES))
             h.append({"op": "edit", "state": prev[:i] + rng.choice("-uwo") + prev[i + 1:]})
-        elif r < 0.5:
+        elif r < 0.47:
             h.append({"op": "update", "mode": rng.choice("aacsn"), "we": rng.random() < 0.5})
+        elif r < 0.53:
+            h.append({"op": "respell"})
         else:
             prev = [o for o in h if o["op"] == "edit"][-1]["state"]
             files = rand_files(rng, prev) if rng.random() < 0.3 else None
@@ -673,7 +708,7 @@ def absent_keys(rec):
     """baseline keys whose path does not exist in the project state (a directory scan sees that)"""
     st = dict(zip(UFILES, rec["state"]))
     present = {canon(f) for f in UFILES if st[f] != "-"} | {canon(d) for d in present_dirs(rec["state"])} | {"."}
-    return {k for k in (rec["disk0"] or {}) if canon(k) not in present and k != "."}
+    return {k for k in (view(rec["disk0"]) or {}) if canon(k) not in present and k != "."}
 
 
 def evaluated_keys(rec):
@@ -706,8 +741,8 @@ def oracle_correspondence(rec, fixed):
 
 
 def ff_trigger(rec, fixed):
-    d0 = rec["disk0"] if rec["flags"].get("b") else None
-    if "D12" in fixed and d0 is not None:
+    d0 = view(rec["disk0"]) if rec["flags"].get("b") else None
+    if d0 is not None:
         return lambda r: r["status"] == "F" and norm_key(r["path"]) not in d0
     return lambda r: r["status"] == "F"
 
@@ -717,7 +752,7 @@ def oracles_c09(rec, prev, fixed):
     fl = rec["flags"]
     if rec["exit"] == 2 or not rec["parsed"]:
         return out
-    d0, d1 = rec["disk0"], rec["disk1"]
+    d0, d1 = view(rec["disk0"]), view(rec["disk1"])   # baselines compared as the tool loads them
     loaded = d0 if fl.get("b") else None
     # (b) unrecorded violations always fail the run
     if not fl.get("wo"):
@@ -734,12 +769,12 @@ def oracles_c09(rec, prev, fixed):
                 if is_ff(fl) and loaded and any(r["status"] == "F" and norm_key(r["path"]) in loaded for r in rec["rp"]):
                     klass = "K09_failfast"
                 out.append(("C09", klass, "unrecorded_always_fails: " + bad))
-    # a recorded violation listed under another spelling must still be grandfathered (D8, reserved for C08)
+    # a recorded violation listed under another spelling must still be grandfathered (D8, fixed: no class)
     if loaded:
-        ck = {canon(k) for k in loaded}
+        ck = {canon(k) for k in (rec["disk0"] or {})}
         for o in rec["obs"]:
-            if o["status"] == "F" and o["kind"] in BASELINABLE and norm_key(o["path"]) not in loaded and canon(o["path"]) in ck:
-                out.append(("C09", "K09_key_spelling", "roundtrip: %s is recorded as ./%s but reported failed" % (o["path"], canon(o["path"]))))
+            if o["status"] == "F" and o["kind"] in BASELINABLE and canon(o["path"]) in ck:
+                out.append(("C09", None, "key_spelling: %s is recorded under another spelling of %s but reported failed" % (o["path"], canon(o["path"]))))
                 break
     # update runs
     u = fl.get("u")
@@ -807,7 +842,7 @@ def oracles_c10(rec, prev, fixed):
     fl = rec["flags"]
     if rec["exit"] == 2 or not rec["parsed"] or fl.get("u"):
         return out
-    d0, d1 = rec["disk0"], rec["disk1"]
+    d0, d1 = view(rec["disk0"]), view(rec["disk1"])   # baselines compared as the tool loads them
     # subset / no add without update
     if d1 is not None and d0 is None:
         out.append(("C10", None, "no_add_without_update: baseline file created by a run without --update-baseline"))
